@@ -30,13 +30,13 @@ const (
 
 // Class of a park point; strategies may treat classes differently.
 const (
-	ClassYield = iota // ordinary yield before a visible operation
-	ClassEntry        // first park of a new task
-	ClassWoke         // re-park after a blocking primitive returned
-	ClassLock         // before acquiring a lock
-	ClassNet          // harness: a message/response waiting for delivery
-	ClassClient       // harness: client/workload actor step
-	ClassFault        // harness: fault actor step
+	ClassYield  = iota // ordinary yield before a visible operation
+	ClassEntry         // first park of a new task
+	ClassWoke          // re-park after a blocking primitive returned
+	ClassLock          // before acquiring a lock
+	ClassNet           // harness: a message/response waiting for delivery
+	ClassClient        // harness: client/workload actor step
+	ClassFault         // harness: fault actor step
 )
 
 type Task struct {
